@@ -421,3 +421,60 @@ def run_defstate(c, ctx, parse_text):
             devs.append(dev('definedness:repeated-test-on-%s-node-differs' % st, dict(text=text, expected=exp2, observed=repr(d.get('t2')))))
     return outcome(classes=classes, nontrivial=True, fp='defstate ' + text, dev=devs, monitors=mon,
                    sample=dict(text=text, expected=exp, observed=None if obs is None else bool(obs)))
+
+
+# ------------------------------------------------------------------------------------------------ integer node = expression with a whole exact result
+# "the result expressed in the requested unit equals the exact result": when the exact result of the expression is a whole
+# number, an int node holds that number - also when floating-point evaluation lands a hair below it (0.7 m / 0.1 m =
+# 6.999999999999999).  How a NON-whole result is turned into an int is not in the statement and not asked here.
+
+def gen_intexpr(rng):
+    from fractions import Fraction as Fr
+    N = rng.choice([3, 7, 29, 6, 12, 435, 58, 9, 21, 100])
+    d = rng.choice(['0.1', '0.2', '0.3', '0.7', '0.01', '0.05', '0.6', '1.1', '4.35', '0.29'])
+    num = Fr(N) * Fr(d)
+    dim = rng.choice(list(UNITS))
+    (ua, fa), (ub, fb) = rng.choice([rng.sample(UNITS[dim], 2), [rng.choice(UNITS[dim])] * 2])
+    return dict(t='intexpr', N=N, d=d, num=str(float(num)), ua=ua, ub=ub, form=rng.choice(['quotient', 'quotient', 'product-with-int-node', 'quotient-other-unit', 'with-requested-unit', 'sum']))
+
+
+def run_intexpr(c, ctx, parse_text):
+    from fractions import Fraction as Fr
+    F = dict(sum(UNITS.values(), []))
+    N, d, form = c['N'], c['d'], c['form']
+    L = []
+    exp = N
+    if Fr(c['num']) != Fr(N) * Fr(d):
+        return outcome(skip='numerator has no short decimal spelling')
+    if form == 'quotient':
+        L.append('n int = ("%s %s / %s %s")' % (c['num'], c['ua'], d, c['ua']))
+    elif form == 'quotient-other-unit':
+        # the same quotient with the divisor written in another unit of the dimension
+        k = Fr(repr(F[c['ua']])) / Fr(repr(F[c['ub']]))
+        dv = Fr(d) * k
+        if dv.denominator > 10 ** 6 or float(dv) < 1e-4 or float(dv) > 1e7:
+            return outcome(skip='divisor has no short decimal spelling in the other unit')
+        L.append('n int = ("%s %s / %s %s")' % (c['num'], c['ua'], repr(float(dv)), c['ub']))
+    elif form == 'product-with-int-node':
+        if N % 100:
+            return outcome(skip='needs a multiple of 100')
+        L += ['cells int = 100', 'n int = ("%s * {?cells}")' % repr(float(Fr(N, 100)))]
+    elif form == 'with-requested-unit':
+        L.append('n int = ("%s %s * %d") %s' % (d, c['ua'], N, c['ua']))
+        if not (Fr(N) * Fr(d)).denominator == 1:
+            return outcome(skip='result not whole in the requested unit')
+        exp = int(Fr(N) * Fr(d))
+    else:
+        L.append('n int = ("%s + %s - %s")' % (N, d, d))
+    text = '\n'.join(L) + '\n'
+    classes = ['int-node-from-expression-with-whole-exact-result', 'int-expression:' + form]
+    devs, mon = [], dict(int_expression_programs=1)
+    kind, res = parse_text(ctx, text)
+    obs = None
+    if kind != 'ok':
+        devs.append(dev('int-expression:valid-program-rejected', dict(text=text, exc=repr(res)[:160])))
+    else:
+        obs = res.data().get('n')
+        if obs is None or isinstance(obs, bool) or int(obs) != exp or float(obs) != float(exp):
+            devs.append(dev('int-expression:whole-exact-result-not-delivered(%s)' % form, dict(text=text, observed=repr(obs), expected=exp)))
+    return outcome(classes=classes, nontrivial=True, fp='intexpr ' + text, dev=devs, monitors=mon, sample=dict(text=text, expected=exp, observed=repr(obs)))
